@@ -80,6 +80,13 @@ def _env(crate=None):
     return e
 
 
+def _limit_memory():
+    # CBMC can exhaust the machine on String/Vec-heavy code: cap the address space of the whole tool chain
+    import resource
+    cap = 24 * 1024 ** 3
+    resource.setrlimit(resource.RLIMIT_AS, (cap, cap))
+
+
 def run_kani(crate_dir, harness, timeout, playback=False, extra=()):
     cmd = ['cargo', 'kani'] + list(extra) + ['--harness', harness]
     if playback:
@@ -87,7 +94,7 @@ def run_kani(crate_dir, harness, timeout, playback=False, extra=()):
     t0 = time.time()
     try:
         p = subprocess.run(cmd, cwd=crate_dir, env=_env(os.path.basename(crate_dir)), stdout=subprocess.PIPE, stderr=subprocess.STDOUT,
-                           text=True, timeout=timeout)
+                           text=True, timeout=timeout, preexec_fn=_limit_memory)
         out = p.stdout
     except subprocess.TimeoutExpired as e:
         return 'timeout', (e.stdout or '') if isinstance(e.stdout, str) else '', time.time() - t0, ' '.join(cmd)
